@@ -50,7 +50,7 @@ impl FrameDestination {
 
 //@item rodbus/src/common/frame.rs | FrameHeader
 impl FrameHeader {
-//@fn rodbus/src/common/frame.rs | FrameHeader::new_tcp_header | tags=C05,C01
+//@fn rodbus/src/common/frame.rs | FrameHeader::new_tcp_header | tags=C05,C01,C17,C03
 //@|    ensures r.destination == FrameDestination::UnitId(unit_id), r.tx_id == Some(tx_id),
 //@fn rodbus/src/common/frame.rs | FrameHeader::new_rtu_header | tags=C06,C17
 //@|    ensures r.destination == destination, r.tx_id is None,
